@@ -68,7 +68,7 @@ Logged ==
                       \/ (~owedInt /\ ((C_Yield /\ cur.k = "INT") \/ C_CtrlC) /\ AuxSame)
      \/ Is("COUNT") /\ (MaxFail = 0 \/ (Line.fails = fails /\ Line.limit = limit)) /\ UNCHANGED vars /\ AuxSame
      \/ Is("STOP") /\ stopped /\ UNCHANGED vars /\ AuxSame
-     \/ Is("CTRLC") /\ ppc = "get" /\ pendCtrlC' = TRUE /\ UNCHANGED vars /\ UNCHANGED <<owedInt, caseSeen>>
+     \/ Is("CTRLC") /\ ppc \in {"get", "alive"} /\ pendCtrlC' = TRUE /\ UNCHANGED vars /\ UNCHANGED <<owedInt, caseSeen>>
      \/ (\E w \in Workers : Is("CASE") /\ Line.w = w /\ wpc[w] = "check" /\ wop[w] = Line.op /\ ~caseSeen[w]
                                /\ caseSeen' = [caseSeen EXCEPT ![w] = TRUE] /\ UNCHANGED vars /\ UNCHANGED <<pendCtrlC, owedInt>>)
      \/ (\E w \in Workers : More /\ Line.w = w /\
